@@ -8,7 +8,8 @@ Open Scope list_scope.
 Open Scope N_scope.
 
 (** description of a composefs instance built by the harness (two levels of mounts) *)
-Inductive leaf := LFile | LStatic (names : list string).
+(** [LMut q]: a file (mounted with WithFile) whose own QID the harness changes during the script; [q] is its first QID *)
+Inductive leaf := LFile | LStatic (names : list string) | LMut (q : qid).
 Inductive mnt := MLeaf (l : leaf) | MSub (ms : list (string * leaf)).
 Definition shape := list (string * mnt).
 
@@ -16,11 +17,14 @@ Definition shape := list (string * mnt).
     names), then either Readdir(off, cnt) there or Walk([name]) + GetAttr on the result *)
 Inductive op :=
 | ORead (path : list string) (off cnt : N)
-| OWalk (path : list string) (name : string).
+| OWalk (path : list string) (name : string)
+(** the top-level mount [name] (an [LMut] leaf) reports QID [q] from now on *)
+| OBump (name : string) (q : qid).
 Inductive opres :=
 | RRead (es : list dirent)
 | RWalk (ok : bool) (qw qg : qid)
-| RNoDir.
+| RNoDir
+| RBump.
 
 Inductive c19case :=
 (** a paged listing. [fs]: 0 localfs, 1 staticfs, 2 composefs, 3 a directory below a nested mount.
@@ -77,13 +81,14 @@ Definition model_pages (fs : N) (remote : bool) (msize count : N) (names : list 
 Fixpoint index_from {A} (i : nat) (l : list A) : list (nat * A) :=
   match l with [] => [] | x :: r => (i, x) :: index_from (S i) r end.
 
-Definition leaf_base (l : leaf) : qid := match l with LFile => mkQid p9_TypeRegular 0 0 | LStatic _ => root_qid end.
+Definition leaf_base (l : leaf) : qid :=
+  match l with LFile => mkQid p9_TypeRegular 0 0 | LStatic _ => root_qid | LMut q => q end.
 
 (** construction-time lookups: staticfs.WithFile asks GetAttr for every file *)
 Definition leaf_new (s : mstate) (g : nat) (l : leaf) : list (string * file) * (string -> qid) * mstate :=
   match l with
-  | LFile => ([], q0, s)
   | LStatic names => let '(fs, qs, s') := static_new s g 0 names in (fs, stored_of qs, s')
+  | _ => ([], q0, s)
   end.
 
 Record built1 := mkBuilt1 { b1_dir : option dir; b1_sub : list (string * option dir) }.
@@ -97,8 +102,8 @@ Fixpoint build_inner (s : mstate) (g : nat) (outer : mid) (ms : list (nat * (str
       let gs := (1000 * g + j)%nat in
       let '(fs, st, s1) := leaf_new s gs l in
       let d := match l with
-               | LFile => None
                | LStatic _ => Some (mkDir fs (Some st) [(g, j); outer])
+               | _ => None
                end in
       let '(ents, subs, s2) := build_inner s1 g outer r in
       ((n, mkFile (leaf_base l) [(g, j)]) :: ents, (n, d) :: subs, s2)
@@ -115,7 +120,7 @@ Fixpoint build_outer (s : mstate) (ms : list (nat * (string * mnt)))
         | MLeaf l =>
             let '(fs, st, s1) := leaf_new s g l in
             (mkFile (leaf_base l) [(0%nat, i)],
-             mkBuilt1 (match l with LFile => None | LStatic _ => Some (mkDir fs (Some st) [(0%nat, i)]) end) [],
+             mkBuilt1 (match l with LStatic _ => Some (mkDir fs (Some st) [(0%nat, i)]) | _ => None end) [],
              s1)
         | MSub inner =>
             let '(ents, subs, s1) := build_inner s g (0%nat, i) (index_from 0 inner) in
@@ -170,11 +175,15 @@ Definition run_op (b : built) (s : mstate) (o : op) : opres * mstate :=
           end
       | (None, s1) => (RNoDir, s1)
       end
+  | OBump _ _ => (RBump, s)
   end.
+
+Definition bump (b : built) (n : string) (q : qid) : built := mkBuilt (dir_set_base n q (b_dir b)) (b_sub b).
 
 Fixpoint run_ops (b : built) (s : mstate) (os : list op) : list opres :=
   match os with
   | [] => []
+  | OBump n q :: r => RBump :: run_ops (bump b n q) s r
   | o :: r => let '(x, s') := run_op b s o in x :: run_ops b s' r
   end.
 
@@ -183,6 +192,7 @@ Definition opres_eqb (a b : opres) : bool :=
   | RRead x, RRead y => list_eqb dirent_eqb x y
   | RWalk o1 a1 b1, RWalk o2 a2 b2 => Bool.eqb o1 o2 && qid_eqb a1 a2 && qid_eqb b1 b2
   | RNoDir, RNoDir => true
+  | RBump, RBump => true
   | _, _ => false
   end.
 
@@ -240,6 +250,27 @@ Definition one_fits (remote : bool) (msize count : N) (names : list string) : bo
   if remote then forallb (fun n => name_size n <=? N.min (client_clamp msize count) (max_reply_payload msize)) names
   else 1 <=? count.
 
+(** scripts: between two changes of a mount's identity, whatever a Readdir listed for a name is what a Walk to that name
+    (from the same directory) and GetAttr on the walked File report — in either order of the two operations.
+    [seenr]: listings so far (path, entries); [seenw]: walks so far (path, name, QID). *)
+Definition path_eqb (a b : list string) : bool := list_eqb String.eqb a b.
+Fixpoint script_agrees (seenr : list (list string * list dirent)) (seenw : list (list string * string * qid))
+         (ops : list op) (res : list opres) : bool :=
+  match ops, res with
+  | OBump _ _ :: os, _ :: rs => script_agrees [] [] os rs
+  | ORead p _ _ :: os, RRead es :: rs =>
+      forallb (fun d => (d_type d =? q_type (d_qid d)) &&
+                        forallb (fun '(p', n, qw) => negb (path_eqb p p' && String.eqb n (d_name d)) || qid_eqb (d_qid d) qw) seenw) es
+      && script_agrees ((p, es) :: seenr) seenw os rs
+  | OWalk p n :: os, RWalk true qw qg :: rs =>
+      qid_eqb qw qg &&
+      forallb (fun '(p', es) => negb (path_eqb p p') ||
+                                forallb (fun d => negb (String.eqb (d_name d) n) || qid_eqb (d_qid d) qw) es) seenr
+      && script_agrees seenr ((p, n, qw) :: seenw) os rs
+  | _ :: os, _ :: rs => script_agrees seenr seenw os rs
+  | _, _ => true
+  end.
+
 Definition property_holds (c : c19case) : bool :=
   match expand c with
   | CPages fs remote msize count names wq gq pages hit =>
@@ -255,12 +286,13 @@ Definition property_holds (c : c19case) : bool :=
       forallb (fun d => Nat.eqb (count_name (d_name d) all) 1) (if Nat.leb (List.length all) 400 then all else []) &&
       (* complete, when one entry fits *)
       (negb (one_fits remote msize count names) || (negb hit && exactly_once names all))
-  | CQids _ _ res =>
+  | CQids _ ops res =>
       forallb (fun r => match r with
                         | RWalk true qw qg => qid_eqb qw qg
                         | RRead es => forallb (fun d => d_type d =? q_type (d_qid d)) es
                         | _ => true
                         end) res
+      && script_agrees [] [] ops res
   | CPagesZ _ _ _ _ _ _ _ _ _ _ _ => false
   end.
 
